@@ -15,7 +15,7 @@
    and by the correspondence of the extracted writer model with the library.  Proved below: the
    statements do NOT hold for the pinned tree (five witnesses, each a defect with a patch or a
    finding). *)
-From CAres.Wire Require Import Cursor Name Record Parse Escape Escape_proofs RefDecode Name_ref Write Roundtrip Write_proofs Write_name Write_host Write_name2 Write_pos Write_boundary Write_query Write_patch Write_query2 Write_rr Write_msg.
+From CAres.Wire Require Import Cursor Name Record Parse Escape Escape_proofs RefDecode Name_ref Write Roundtrip Write_proofs Write_name Write_host Write_name2 Write_pos Write_boundary Write_query Write_patch Write_query2 Write_rr Write_msg Write_frame.
 From CAres.Gen Require Import Consts Tables.
 Local Open Scope Z_scope.
 
@@ -241,3 +241,16 @@ Theorem C03_roundtrip_partial : forall d bs,
              dns_write d' = Ok bs.
 Proof. exact roundtrip_fixed. Qed.
 Print Assumptions C03_roundtrip_partial.
+
+(* FRAMES AT ANY BUFFER POSITION, the full statement: a frame written by ares_dns_write_buf_tcp into a
+   buffer that already holds arbitrary octets (earlier frames, a partially sent one) consists of
+   the two octets of the message length followed by EXACTLY the message ares_dns_write() produces
+   for the record - and (C03_roundtrip_partial) for a well-formed record that message parses back
+   to the record.  Hypotheses: the buffer is well formed with no pending back-patch (holds between
+   frames) and its length fits a size_t. *)
+Theorem C03_frame_any_position : forall d b b',
+  wb_wf b -> w_shadow b = [] -> Z.of_nat (length (w_live b')) < 2 ^ 64 ->
+  write_buf_tcp wfixed d b = Ok (ARES_SUCCESS, b') ->
+  exists m, dns_write d = Ok m /\ w_live b' = w_live b ++ be16b (Z.of_nat (length m)) ++ m.
+Proof. exact frame_any_position. Qed.
+Print Assumptions C03_frame_any_position.
